@@ -32,10 +32,14 @@ def tv_plans(tier, rng):
             pos = list(range(0, min(flen, 40))) + ([rng.randrange(40, flen) for _ in range(6)] if flen > 40 else [])
             for at in pos:
                 for sc in ({}, {"cap": 3}):
-                    w = {"len": n, "salt": k, "failat": at}
-                    w.update(sc)
-                    plans.append({"id": "f%d" % k, "mode": "write", "layer": layer, "writes": [w]})
-                    k += 1
+                    # every error kind is an error of the transport: reported, and no byte sent twice - also the kinds
+                    # a caller might be tempted to retry after (they fail once; a retry from the start would duplicate the
+                    # bytes that had already gone out)
+                    for kind in (("brokenpipe",) if (at % 3 and tier == "quick") else ("brokenpipe", "wouldblock", "timedout", "reset", "other")):
+                        w = {"len": n, "salt": k, "failat": at, "failkind": kind}
+                        w.update(sc)
+                        plans.append({"id": "f%d" % k, "mode": "write", "layer": layer, "writes": [w]})
+                        k += 1
     # too large for the 16 bit length: must be refused, nothing written (small count: payloads are logged)
     for layer, n in (("tpkt", 65532), ("tpkt", 65535), ("x224", 65529), ("x224", 65536), ("tpkt", 65531), ("x224", 65528), ("link", 66000)):
         plans.append({"id": "big-%s-%d" % (layer, n), "mode": "write", "layer": layer, "writes": [{"len": n, "salt": 1, "cap": 4096}]})
